@@ -204,7 +204,12 @@ func genHostileFramed(t *rapid.T, tpl *gen.Template) ([]byte, string) {
 				}
 			}
 		}
-		return ref.Assemble(tpl.Tags, tpl.Begin, tpl.MsgType, toks), "framed-near-valid"
+		out := ref.Assemble(tpl.Tags, tpl.Begin, tpl.MsgType, toks)
+		if rapid.IntRange(0, 9).Draw(t, "extremeLen") == 0 {
+			// everything right except what BodyLength declares: far too large, negative, overflowing
+			return ref.Relength(out, tpl.Tags, rapid.SampledFrom(ref.ExtremeLengths).Draw(t, "declaredLen")), "declared-length-extreme"
+		}
+		return out, "framed-near-valid"
 	}
 	n := rapid.IntRange(0, 14).Draw(t, "nTok")
 	var toks []ref.Tok
